@@ -228,6 +228,11 @@ impl<S: Read + Write> Client<S> {
         self.transport.shutdown()
     }
 
+    /// Is a part of the next payload already buffered by the link ?
+    pub fn has_pending_data(&self) -> bool {
+        self.transport.has_pending_data()
+    }
+
     #[cfg(feature = "integration")]
     pub fn get_link(self) -> Link<S> {
         self.transport
